@@ -19,7 +19,18 @@ from the returned ``(x, info, nit)`` with dense NumPy algebra on the generated m
 
 Per-iteration traces (energy, energy_diff, norm) are captured by replacing the module's
 ``_cg_pretty_print_it``; they make ties against the thresholds visible (tied cases: discrete
-comparisons skipped).
+comparisons skipped).  Because CG amplifies rounding-level differences between two executions
+(exponentially once orthogonality is lost) the eager/compiled comparison is calibrated by the
+real solver itself: the eager solver is run once more with the right hand side perturbed by
+1e-14 relative; decisions that this perturbation already changes are not compared, tie margins
+are widened by 100x the observed response, and x is compared with 1e-9*scale + 100*response.
+
+Mechanism keys: ``cg-<eager|static>:negcurv-first-direction-fallback``,
+``cg-<v>:converged-at-maxiter-reported-as-failure``, ``cg-<v>:success-without-criterion``,
+``cg-<v>:failure-despite-criterion``, ``cg-<v>:failure-on-hpd``, ``cg-<v>:nonposdef-not-reported``,
+``cg-<v>:nonposdef-energy-above-start``, ``cg-<v>:failure-despite-raise-off``,
+``cg:eager-vs-static-{info,nit,x,first-iteration,failure-verdict}``, ``cg:static-jit-vs-direct-*``,
+``cg-eager:name-changes-result``.
 """
 import numpy as np
 
@@ -34,7 +45,8 @@ META = dict(
     id="C15", level="exploration",
     title="JAX conjugate gradients: accurate, and eager and compiled variants agree",
     technique="runtime results of _cg/_static_cg/cg/static_cg judged by dense NumPy algebra; "
-              "per-iteration trace monitor for ties",
+              "per-iteration trace monitor for ties; eager/compiled comparison calibrated by a "
+              "rounding-level perturbation run of the real solver",
     rule=("case = (structure bucket, numeric draw). structure = class {hpd, hpd-at-limit (maxiter set to "
           "the observed convergence iteration k, k-1 or k+1), exact-x0, non-PD: negative definite / "
           "indefinite with first curvature <0 / >0 / exactly-zero curvature} x pytree layout (10 layouts, "
@@ -52,6 +64,9 @@ META = dict(
                  "the compiled variant is executed inside jax.jit with the numeric options as traced "
                  "arguments (as _static_newton_cg does); a small fraction of cases additionally calls it "
                  "un-jitted exactly like the eager one",
+                 "eager/compiled agreement is asserted up to the solver's own response to a 1e-14 relative "
+                 "perturbation of the right hand side (x100), not at a fixed 1e-10: CG is numerically "
+                 "unstable after loss of orthogonality and two executions legitimately drift apart",
                  "time_threshold not exercised"],
     need=["eager_runs", "static_runs", "criterion_checks", "eager_static_comparisons",
           "nonpd_raise_checks", "nonpd_energy_checks", "fallback_checks", "at_limit_cases",
